@@ -11,7 +11,7 @@ use barter::{
         execution_tx::MultiExchangeTxMap,
         state::{
             EngineState,
-            connectivity::Health,
+            connectivity::{ConnectivityStates, Health},
             global::DefaultGlobalData,
             instrument::{data::DefaultInstrumentMarketData, filter::InstrumentFilter},
             trading::TradingState,
@@ -163,6 +163,9 @@ struct Ev {
     k: &'static str, // "mi" | "ai" | "mr" | "ar"
     x: usize,
     akind: u64,
+    /// after this event: persist the engine's ConnectivityStates with serde_json, restore it,
+    /// and continue on the restored value
+    rt: bool,
 }
 
 #[derive(Clone, Debug)]
@@ -191,7 +194,7 @@ impl Input {
             "instr_per_ex": self.instr_per_ex,
             "trading": self.trading,
             "start": self.start.as_ref().map(|(g, ls)| json!({"global": g, "links": ls.iter().map(|(m, a)| json!([m, a])).collect::<Vec<_>>()})),
-            "events": self.events.iter().map(|e| json!({"k": e.k, "x": e.x, "akind": e.akind})).collect::<Vec<_>>(),
+            "events": self.events.iter().map(|e| json!({"k": e.k, "x": e.x, "akind": e.akind, "rt": e.rt})).collect::<Vec<_>>(),
         })
     }
     fn from_json(v: &Value) -> Input {
@@ -227,6 +230,7 @@ impl Input {
                     k: kind_static(e["k"].as_str().unwrap()),
                     x: us(&e["x"]),
                     akind: e["akind"].as_u64().unwrap_or(0),
+                    rt: e["rt"].as_bool().unwrap_or(false),
                 })
                 .collect(),
         }
@@ -663,8 +667,41 @@ fn run_case(inp: &Input) -> (String, Vec<String>, bool) {
         if e.k == "ai" || e.k == "mi" {
             tags.push(format!("{}_kind:{}", e.k, kind_name(e)));
         }
+        let rt = if e.rt {
+            let orig = engine.state.connectivity.clone();
+            let restored = catch(AssertUnwindSafe(|| {
+                serde_json::to_string(&orig)
+                    .ok()
+                    .and_then(|txt| serde_json::from_str::<ConnectivityStates>(&txt).ok())
+            }));
+            let changed = match restored {
+                Ok(Some(back)) => {
+                    let changed = back != orig;
+                    engine.state.connectivity = back;
+                    changed
+                }
+                // a serde error or panic: nothing restored
+                _ => true,
+            };
+            tags.push(if changed { "persist_restore:CHANGED" } else { "persist_restore:identity" }.to_string());
+            let after = snapshot_state(&engine);
+            format!(
+                "(Some ({}, ({}, {})))",
+                b(changed),
+                health(after.0),
+                list(
+                    &after
+                        .1
+                        .iter()
+                        .map(|(k, m, a)| pair(&n(code(*k)), &format!("(mkCS {} {})", health(*m), health(*a))))
+                        .collect::<Vec<_>>()
+                )
+            )
+        } else {
+            "None".to_string()
+        };
         obs.push(format!(
-            "(mkObs {} {} {} {})",
+            "(mkObs {} {} {} {} {})",
             health(post.0),
             list(
                 &post
@@ -674,7 +711,8 @@ fn run_case(inp: &Input) -> (String, Vec<String>, bool) {
                     .collect::<Vec<_>>()
             ),
             out,
-            list(&new_calls)
+            list(&new_calls),
+            rt
         ));
     }
     let start = opt(inp.start.as_ref().map(|(g, ls)| {
@@ -735,7 +773,7 @@ fn table(em: &mut Emitter) {
                             instr_per_ex: vec![1; n_ex],
                             trading: false,
                             start: Some((g, ls.clone())),
-                            events: vec![Ev { k, x, akind: kind }],
+                            events: vec![Ev { k, x, akind: kind, rt: (mask as usize + x + kind as usize) % 2 == 0 }],
                         };
                         emit(em, "table", &inp);
                     }
@@ -755,7 +793,10 @@ fn item_kinds() -> Vec<(&'static str, u64)> {
 
 /// give every item of a generated history a random item kind
 fn assign_kinds(r: &mut Rng, events: &mut [Ev]) {
+    // persist / restore steps: none, sparse, or after every event
+    let rt_pct = *r.pick(&[0u64, 10, 30, 100]);
     for e in events.iter_mut() {
+        e.rt = r.chance(rt_pct, 100);
         match e.k {
             "mi" => e.akind = r.below(MARKET_KINDS.len() as u64),
             "ai" => e.akind = r.below(ACCOUNT_KINDS.len() as u64),
@@ -791,8 +832,8 @@ fn gen_random(r: &mut Rng, max_len: u64) -> Input {
             // a sweep: one item on every link, in random order (brings global to Healthy)
             let mut all: Vec<Ev> = vec![];
             for &p in &exchanges {
-                all.push(Ev { k: "mi", x: p, akind: 0 });
-                all.push(Ev { k: "ai", x: index_of(&exchanges, p), akind: r.below(2) });
+                all.push(Ev { k: "mi", x: p, akind: 0, rt: false });
+                all.push(Ev { k: "ai", x: index_of(&exchanges, p), akind: r.below(2), rt: false });
             }
             r.shuffle(&mut all);
             events.extend(all);
@@ -801,14 +842,14 @@ fn gen_random(r: &mut Rng, max_len: u64) -> Input {
         let p = *r.pick(&exchanges);
         let ev = if r.chance(notice_pct, 100) {
             if r.chance(1, 2) {
-                Ev { k: "mr", x: p, akind: 0 }
+                Ev { k: "mr", x: p, akind: 0, rt: false }
             } else {
-                Ev { k: "ar", x: p, akind: 0 }
+                Ev { k: "ar", x: p, akind: 0, rt: false }
             }
         } else if r.chance(1, 2) {
-            Ev { k: "mi", x: p, akind: 0 }
+            Ev { k: "mi", x: p, akind: 0, rt: false }
         } else {
-            Ev { k: "ai", x: index_of(&exchanges, p), akind: r.below(2) }
+            Ev { k: "ai", x: index_of(&exchanges, p), akind: r.below(2), rt: false }
         };
         events.push(ev);
     }
@@ -848,10 +889,10 @@ fn gen_adversarial(r: &mut Rng, max_len: u64) -> Input {
             0 => {
                 // duplicates: the same event two or three times in a row
                 let e = match r.below(4) {
-                    0 => Ev { k: "mi", x: p, akind: 0 },
-                    1 => Ev { k: "ai", x: idx, akind: r.below(2) },
-                    2 => Ev { k: "mr", x: p, akind: 0 },
-                    _ => Ev { k: "ar", x: p, akind: 0 },
+                    0 => Ev { k: "mi", x: p, akind: 0, rt: false },
+                    1 => Ev { k: "ai", x: idx, akind: r.below(2), rt: false },
+                    2 => Ev { k: "mr", x: p, akind: 0, rt: false },
+                    _ => Ev { k: "ar", x: p, akind: 0, rt: false },
                 };
                 for _ in 0..(2 + r.below(2)) {
                     events.push(e.clone());
@@ -861,34 +902,34 @@ fn gen_adversarial(r: &mut Rng, max_len: u64) -> Input {
                 // everything up, one link down, events on the *other* link of the same exchange
                 // and on other exchanges, then the link's own event
                 for &q in &exchanges {
-                    events.push(Ev { k: "mi", x: q, akind: 0 });
-                    events.push(Ev { k: "ai", x: index_of(&exchanges, q), akind: 1 });
+                    events.push(Ev { k: "mi", x: q, akind: 0, rt: false });
+                    events.push(Ev { k: "ai", x: index_of(&exchanges, q), akind: 1, rt: false });
                 }
                 let market = r.chance(1, 2);
-                events.push(Ev { k: if market { "mr" } else { "ar" }, x: p, akind: 0 });
+                events.push(Ev { k: if market { "mr" } else { "ar" }, x: p, akind: 0, rt: false });
                 for _ in 0..r.below(4) {
                     let q = *r.pick(&exchanges);
                     if market {
-                        events.push(Ev { k: "ai", x: index_of(&exchanges, q), akind: 0 });
+                        events.push(Ev { k: "ai", x: index_of(&exchanges, q), akind: 0, rt: false });
                     } else {
-                        events.push(Ev { k: "mi", x: q, akind: 0 });
+                        events.push(Ev { k: "mi", x: q, akind: 0, rt: false });
                     }
                 }
                 events.push(if market {
-                    Ev { k: "mi", x: p, akind: 0 }
+                    Ev { k: "mi", x: p, akind: 0, rt: false }
                 } else {
-                    Ev { k: "ai", x: idx, akind: 1 }
+                    Ev { k: "ai", x: idx, akind: 1, rt: false }
                 });
             }
             2 => {
                 // all down, then up in reverse order, market and account notices interleaved
                 for &q in &exchanges {
-                    events.push(Ev { k: "mr", x: q, akind: 0 });
-                    events.push(Ev { k: "ar", x: q, akind: 0 });
+                    events.push(Ev { k: "mr", x: q, akind: 0, rt: false });
+                    events.push(Ev { k: "ar", x: q, akind: 0, rt: false });
                 }
                 for &q in exchanges.iter().rev() {
-                    events.push(Ev { k: "ai", x: index_of(&exchanges, q), akind: 0 });
-                    events.push(Ev { k: "mi", x: q, akind: 0 });
+                    events.push(Ev { k: "ai", x: index_of(&exchanges, q), akind: 0, rt: false });
+                    events.push(Ev { k: "mi", x: q, akind: 0, rt: false });
                 }
             }
             3 => {
@@ -902,29 +943,29 @@ fn gen_adversarial(r: &mut Rng, max_len: u64) -> Input {
                 };
                 if r.chance(1, 2) {
                     for &q in &exchanges {
-                        events.push(Ev { k: "mi", x: q, akind: 0 });
-                        events.push(Ev { k: "ai", x: index_of(&exchanges, q), akind: 0 });
+                        events.push(Ev { k: "mi", x: q, akind: 0, rt: false });
+                        events.push(Ev { k: "ai", x: index_of(&exchanges, q), akind: 0, rt: false });
                     }
                 }
                 for _ in 0..r.below(3) {
-                    events.push(Ev { k: *r.pick(&["mi", "mr", "ar"]), x: p, akind: 0 });
+                    events.push(Ev { k: *r.pick(&["mi", "mr", "ar"]), x: p, akind: 0, rt: false });
                 }
                 events.push(match r.below(4) {
-                    0 => Ev { k: "mi", x: unknown, akind: 0 },
-                    1 => Ev { k: "ai", x: n_idx + r.below(2) as usize, akind: r.below(2) },
-                    2 => Ev { k: "mr", x: unknown, akind: 0 },
-                    _ => Ev { k: "ar", x: unknown, akind: 0 },
+                    0 => Ev { k: "mi", x: unknown, akind: 0, rt: false },
+                    1 => Ev { k: "ai", x: n_idx + r.below(2) as usize, akind: r.below(2), rt: false },
+                    2 => Ev { k: "mr", x: unknown, akind: 0, rt: false },
+                    _ => Ev { k: "ar", x: unknown, akind: 0, rt: false },
                 });
-                events.push(Ev { k: "mi", x: p, akind: 0 });
-                events.push(Ev { k: "ai", x: idx, akind: 0 });
+                events.push(Ev { k: "mi", x: p, akind: 0, rt: false });
+                events.push(Ev { k: "ai", x: idx, akind: 0, rt: false });
             }
             _ => {
                 // notice for a link that is already reconnecting, item for one already healthy
-                events.push(Ev { k: *r.pick(&["mr", "ar"]), x: p, akind: 0 });
-                events.push(Ev { k: *r.pick(&["mi", "mr", "ar"]), x: p, akind: 0 });
-                events.push(Ev { k: "ai", x: idx, akind: r.below(2) });
-                events.push(Ev { k: "ai", x: idx, akind: r.below(2) });
-                events.push(Ev { k: "mi", x: p, akind: 0 });
+                events.push(Ev { k: *r.pick(&["mr", "ar"]), x: p, akind: 0, rt: false });
+                events.push(Ev { k: *r.pick(&["mi", "mr", "ar"]), x: p, akind: 0, rt: false });
+                events.push(Ev { k: "ai", x: idx, akind: r.below(2), rt: false });
+                events.push(Ev { k: "ai", x: idx, akind: r.below(2), rt: false });
+                events.push(Ev { k: "mi", x: p, akind: 0, rt: false });
             }
         }
     }
